@@ -264,6 +264,13 @@ def oracle_graph(ig, expected_users):
     for n in users:
         if len(preds[n]) > 1:
             return f"node {n} has several direct predecessors (no concatenation inserted)"
+    for n in nodes:
+        if n >= CONCAT_BASE:
+            if len(set(preds[n])) < 2:
+                return (f"an inserted concatenation node has {len(set(preds[n]))} distinct predecessor(s): a node that "
+                        "has ONE predecessor got a Concat in front of it (its direct edge was replaced)")
+            if len(succs[n]) != 1:
+                return f"an inserted concatenation node feeds {len(succs[n])} nodes instead of exactly one"
     if not ig["concat_types_ok"]:
         return "a node that is neither an operand nor a Concat appeared"
     return None
